@@ -9,7 +9,7 @@ is generated into build/C12/encl_*.v (about 25 goals per file) and compiled by c
 `spec` is a closed real expression over ModelR.spec_re / spec_im / spec_cascade / spec_parallel /
 spec_steady / spec_dft (tied to the complex specification by Prop.C12_enclosure_formulas), the
 frequency w, the coefficients and v are exact literals of the floats the library saw / returned,
-and the goal is closed by the Interval tactic at 80 bits.  A goal that does not check is a
+and the goal is closed by the Interval tactic at 80 bits (240 bits for frequencies k*fl(pi)/m, next to zeros of sin / cos).  A goal that does not check is a
 violation with the concrete filter and frequency."""
 import os, cmath, math, time, operator
 from fractions import Fraction
@@ -25,7 +25,7 @@ TRUSTED = [
   "enclosure tolerances are ASSUMED rounding bounds, not proved: freq_response 2^-44*(sum|b_k| + |H| sum|a_k|)/|A(e^-jw)| "
   "(cascade: relative sum over the sections, parallel: absolute sum), dft 2^-44*sum|x_k|, FIR steady state "
   "2^-43*sum|b_k|/|a_0|; a float result within that distance of the real specification counts as equal to it",
-  "Interval tactic (Coq library, reflexive interval arithmetic at 80 bits) decides the enclosure goals; its proofs "
+  "Interval tactic (Coq library, reflexive interval arithmetic at 80 bits, 240 bits as fallback) decides the enclosure goals; its proofs "
   "are kernel-checked at Qed",
   "floats (frequency, coefficients, results) are transferred as exact rationals; cmath.exp / complex arithmetic of "
   "CPython are only observed through these results",
@@ -104,25 +104,27 @@ def fr_tol(b, a, w):
 
 
 def gen(tier, rng):
-  mult = 1 if tier == "quick" else 10
+  quick = tier == "quick"
+  # samples per family: (single, cascade, parallel, impulse-dft, dft-normalised, steady)
+  n1, n2, n3, n4, n5 = (50, 10, 12, 8, 12) if quick else (600, 120, 200, 100, 200)
   cases = []
-  for _ in range(60 * mult):
+  for _ in range(n1):
     b, a = section(rng, 6)
     if rng.random() < 0.12:           # leading zeros: the constructor shifts both polynomials (Laurent numerator)
       a = [0.0] * rng.randrange(1, 3) + a[:5]
     cases.append({"fam": "single", "secs": [[b, a]], "w": freq(rng)})
   for fam in ("cascade", "parallel"):
-    for _ in range(12 * mult):
-      secs = [list(section(rng, 2)) for _ in range(rng.choice([1, 2, 2, 2, 3]))]
+    for _ in range(n2):
+      secs = [list(section(rng, 2)) for _ in range(rng.choice([1, 2, 2] if quick else [1, 2, 2, 2, 3]))]
       cases.append({"fam": fam, "secs": secs, "w": freq(rng)})
-  for _ in range(20 * mult):
+  for _ in range(n3):
     b = coeffs(rng, rng.randrange(1, 8))
     a0 = rng.choice([1.0, 1.0, -1.0, 2.0, 0.5, -4.0])
     cases.append({"fam": "impulse-dft", "secs": [[b, [a0]]], "w": freq(rng), "len": len(b) + rng.randrange(0, 4)})
-  for _ in range(10 * mult):
+  for _ in range(n4):
     x = coeffs(rng, rng.randrange(1, 9))
     cases.append({"fam": "dft-normalised", "blk": x, "w": freq(rng)})
-  for _ in range(20 * mult):
+  for _ in range(n5):
     b = coeffs(rng, rng.randrange(1, 8))
     a0 = rng.choice([1.0, 1.0, -1.0, 2.0, 0.5])
     order = max([k for k, c in enumerate(b) if c] + [0])
